@@ -21,8 +21,8 @@ RULE = ("one valid response of each kind (state with CRC-8, state with additive 
         "(8 values per position quick, all 255 thorough): client with capabilities and state from a good device in S0; device "
         "switched to S1 (every field, property, capability different) and answering every request of the next refresh() / "
         "get_capabilities() with the corrupted frame; if not valid(f): to_dict(), breeze/ieco and all capability attributes "
-        "unchanged, online False, supported False, no exception. Additionally the header bytes (length byte, appliance type, protocol, frame type) are swept over all substitutes for 24 (quick) / 400 (thorough) different valid frames per kind. Non-trivial: not valid(f) and the corruption is not in the last "
-        "two bytes. Distinct by (kind, position, value, fix-up, level).")
+        "unchanged, online False, supported False, no exception. Additionally the header bytes (length byte, appliance type, protocol, frame type) are swept over all substitutes for 24 (quick) / 400 (thorough) different valid frames per kind. Selective corruption (metamorphic, full stack): with the device moved from S0 to S1, over 1..7 refreshes the answers of a subset of kinds {state, energy, humidity, properties} arrive corrupted (1..3 adjacent corrupted copies per batch) and the others intact; the client must end in the same state as one whose device answered those kinds intact with the old values. Non-trivial: not valid(f) and the corruption is not in the last "
+        "two bytes; every selective case. Distinct by (kind, position, value, fix-up, level).")
 ASSUMPTIONS = ["corruptions that satisfy the other body check, or turn the id into 0xB0/0xB1, are valid frames by the property's own "
                "definition; counted as accepted_by_design and not asserted"]
 
@@ -105,7 +105,107 @@ def check_stack(case: dict):
     return None
 
 
+MIX_KINDS = ["state", "energy", "humidity", "props"]
+
+
+def _req_kind(p) -> str:
+    b = p.body
+    if b[0] == 0xB1:
+        return "props"
+    if b[0] == 0x41 and b[1] == 0x81:
+        return "state"
+    if b[0] == 0x41 and b[1] == 0x21 and (b[3] & 0x0F) == 4:
+        return "energy"
+    if b[0] == 0x41 and b[1] == 0x21 and (b[3] & 0x0F) == 5:
+        return "humidity"
+    return "other"
+
+
+def _corrupt_frame(f: bytes, pos: int, val: int, fix: bool) -> bytes:
+    g = bytearray(f)
+    pos = 1 + pos % (len(g) - 1)
+    if g[pos] == val:
+        val ^= 0x80
+    g[pos] = val
+    if fix:
+        g[-1] = rc.checksum(bytes(g[1:-1]))
+    return bytes(g)
+
+
+def check_mix(case: dict):
+    """Selective corruption over several refreshes (metamorphic): the device moved from S0 to S1; over `rounds` refreshes
+    the answers of the kinds in `bad` arrive corrupted (each corrupted frame `copies` times, adjacent, in one batch) and
+    the others intact.  The client must end in the same state as a client whose device answered the kinds in `bad`
+    with the old values (S0) intact, i.e. corrupted answers carry no information."""
+    from msmart.device import AirConditioner as AC
+    bad = set(case["bad"])
+    snaps = []
+    used = {"corrupted": 0}
+    for reference in (False, True):
+        net = vloop.Net()
+        res = {}
+
+        async def main(loop, reference=reference):
+            m = RK.model(0)
+            old = RK.model(0)
+            dev = SimDevice(loop, version=2, device_id=3, ac=m)
+            net.listen("10.0.0.9", 6444, dev)
+            ac = AC(ip="10.0.0.9", port=6444, device_id=3)
+            await ac.get_capabilities()
+            if case.get("energy_explicit"):
+                ac.enable_energy_usage_requests = True
+            await ac.refresh()
+            res["ready"] = ac.online and ac.supported
+            m1 = RK.model(1)
+            m.state, m.props, m.energy, m.indoor_humidity = m1.state, m1.props, m1.energy, m1.indoor_humidity
+            n = {"i": 0}
+
+            def hook(fr, p, outp):
+                k = _req_kind(p)
+                if k not in bad:
+                    return outp
+                if reference:
+                    return old.handle(fr)
+                out = []
+                for f in outp:
+                    n["i"] += 1
+                    cs = [_corrupt_frame(f, case["pos"] + 7 * j + n["i"], (case["val"] + 31 * j) & 0xFF, case["fix"]) for j in range(case.get("copies", 1))]
+                    if any(RK.is_valid(c) for c in cs):
+                        cs = [_corrupt_frame(f, len(f) - 1, f[-1] ^ 0x5A, False)] * len(cs)      # always invalid: outer checksum broken
+                    used["corrupted"] += len(cs)
+                    out.extend(cs)
+                return out
+
+            m.response_hook = hook
+            try:
+                for _ in range(case.get("rounds", 4)):
+                    await ac.refresh()
+            except Exception as e:
+                res["exc"] = e
+            res["after"] = RK.snapshot(ac)
+            res["online"] = ac.online
+            ac._lan._disconnect()
+
+        vloop.run(main, net)
+        snaps.append(res)
+    got, ref = snaps
+    if not got["ready"] or not ref["ready"]:
+        return ("mix/setup", "client did not come online against the good device")
+    if "exc" in ref:
+        return ("mix/reference-raises", f"{ref['exc']!r} with intact frames only")
+    if "exc" in got:
+        return (f"mix/raises/{type(got['exc']).__name__}", f"{got['exc']!r} with corrupted {sorted(bad)} answers")
+    if got["after"] != ref["after"]:
+        diff = {k: (ref["after"][k], got["after"][k]) for k in ref["after"] if ref["after"][k] != got["after"][k]}
+        return ("mix/state-changed", f"corrupted {sorted(bad)} answers (x{case.get('copies', 1)}, {case.get('rounds', 4)} refreshes) changed state (expected, got): {diff}")
+    if bad >= set(MIX_KINDS) and got["online"]:
+        return ("mix/online", "refreshes that received only corrupted frames report the device online")
+    return None
+
+
 def check_case(case: dict):
+    if case.get("level") == "mix":
+        return check_mix(case)
     return check_stack(case) if case.get("level") == "stack" else check_decoder(case)
 
 
@@ -113,7 +213,18 @@ def replay(ctx, case):
     return check_case(case)
 
 
+def _run_mix(ctx, case):
+    import json
+    ctx.case(hash(json.dumps(case, sort_keys=True)), True, cls="mix/" + "+".join(case["bad"]))
+    if case.get("copies", 1) > 1:
+        ctx.label("adjacent corrupted frames in one batch")
+    ctx.sample("mix", case)
+    return check_mix(case)
+
+
 def _run_one(ctx, case):
+    if case.get("level") == "mix":
+        return _run_mix(ctx, case)
     f = corrupt(case["kind"], case["pos"], case["val"], case["fix"], case.get("base"))
     valid = RK.is_valid(f)
     n = len(f)
@@ -189,3 +300,22 @@ def run(ctx) -> None:
                             ctx.check(c2, lambda c: _run_one(ctx, c))
     ctx.sweep("header bytes (length, appliance, protocol, frame type) x all substitutes over many frames of each kind", h, True)
     ctx.sweep("full stack: positions x substitutes", s, not ctx.quick)
+    # selective corruption over several refreshes: every non-empty subset of answer kinds x copies x fix-up x rounds
+    import itertools
+    x = 0
+    for r in range(1, 5):
+        for bad in itertools.combinations(MIX_KINDS, r):
+            for copies in (1, 2, 3):
+                for fix in (False, True):
+                    for rounds in (1, 4, 6):
+                        for pos in ((11, 17) if ctx.quick else range(10, 34)):
+                            x += 1
+                            if ctx.mine(x):
+                                case = {"level": "mix", "bad": list(bad), "copies": copies, "fix": fix, "rounds": rounds, "pos": pos, "val": (pos * 37 + x) & 0xFF,
+                                        "energy_explicit": x % 2 == 0}
+                                ctx.check(case, lambda c: _run_mix(ctx, c))
+    ctx.sweep("selective corruption: subsets of answer kinds x copies x fix-up x rounds x positions", x, True)
+    mix = st.fixed_dictionaries({"level": st.just("mix"), "bad": st.lists(st.sampled_from(MIX_KINDS), min_size=1, max_size=4, unique=True).map(sorted),
+                                 "copies": st.integers(1, 3), "fix": st.booleans(), "rounds": st.integers(1, 7), "pos": st.integers(0, 60), "val": st.integers(0, 255),
+                                 "energy_explicit": st.booleans()})
+    ctx.hyp("mix", mix, lambda c: _run_mix(ctx, c), ctx.n(300, 40000))
